@@ -2359,19 +2359,19 @@ class Statements(Sequence, Immutable):
                     break
             else:
                 raise KeyError(f"Could not find symbol {symbol}")
-        g = self._create_dependency_graph()
         symbs = self[i].rhs_symbols
-        if i == 0 or not g:
-            # Special case for models with only one statement or no dependent statements
-            return symbs
-        for j, _ in nx.bfs_predecessors(g, i, sort_neighbors=lambda x: reversed(sorted(x))):
+        # Walk backwards over the preceding statements: a statement defining a
+        # symbol that is still needed replaces it by the symbols it reads.
+        # Visiting in statement order handles reassigned (shadowed) symbols.
+        for j in range(i - 1, -1, -1):
             statement = self[j]
             if isinstance(statement, Assignment):
-                symbs -= {statement.symbol}
+                defined = {statement.symbol}
             else:
                 assert isinstance(statement, CompartmentalSystem)
-                symbs -= set(statement.amounts)
-            symbs |= statement.rhs_symbols
+                defined = set(statement.amounts)
+            if not symbs.isdisjoint(defined):
+                symbs = (symbs - defined) | statement.rhs_symbols
         return symbs
 
     def remove_symbol_definitions(
